@@ -2,6 +2,7 @@ package node
 
 import (
 	"fmt"
+	"math"
 	"strings"
 	"unicode/utf8"
 
@@ -159,6 +160,21 @@ func (check fieldConstraints) checkMember(v val.Value, t *meta.Type) error {
 	}
 	if t.Format().IsNumeric() {
 		if err := check.checkRange(hnd.Val, t); err != nil {
+			return err
+		}
+	}
+	if t.Format().Single() == val.FmtDecimal64 && t.FractionDigits() > 0 {
+		// RFC7950 Sec 9.3.4 - the values are the multiples of 10 to the power of -fraction-digits
+		var err error
+		val.ForEach(v, func(_ int, item val.Value) {
+			if x, isFloat := item.Value().(float64); isFloat && err == nil {
+				scaled := x * math.Pow10(t.FractionDigits())
+				if off := math.Abs(scaled - math.Round(scaled)); off > 1e-6*math.Max(1, math.Abs(scaled)) && math.Abs(scaled) < 1e15 {
+					err = fmt.Errorf("'%v' has more than %d fraction digits", item, t.FractionDigits())
+				}
+			}
+		})
+		if err != nil {
 			return err
 		}
 	}
